@@ -2,6 +2,7 @@ package main
 
 import (
 	"fmt"
+	"regexp"
 	"go/token"
 	"go/types"
 	"strings"
@@ -144,6 +145,27 @@ func allocEscapes(v ssa.Value, depth int) bool {
 				return true
 			}
 		case *ssa.DebugRef:
+		case *ssa.MakeClosure:
+			// captured by a closure that is only called or deferred right here
+			crefs := x.Referrers()
+			if crefs == nil {
+				return true
+			}
+			for _, cr := range *crefs {
+				switch y := cr.(type) {
+				case *ssa.Defer:
+					if y.Call.Value != x {
+						return true
+					}
+				case *ssa.Call:
+					if y.Call.Value != x {
+						return true
+					}
+				case *ssa.DebugRef:
+				default:
+					return true
+				}
+			}
 		default:
 			return true
 		}
@@ -180,7 +202,34 @@ func (f *frame) escape(v ssa.Value) {
 	if _, ok := v.Type().Underlying().(*types.Pointer); ok {
 		f.enc.escaped = true
 	}
+	sv, ok := f.vals[v]
+	if !ok {
+		return
+	}
+	f.enc.escapeTerm(sv)
 }
+
+// escapeTerm: a fresh reference "(- k)" inside the value becomes visible to other code.
+func (e *FnEnc) escapeTerm(sv SV) {
+	refs := e.freshIn(sv.term)
+	if sv.loc != nil {
+		refs = append(refs, e.freshIn(sv.loc.base)...)
+	}
+	for _, t := range sv.tuple {
+		refs = append(refs, e.freshIn(t.term)...)
+	}
+	for _, r := range refs {
+		if e.escapedSeen == nil {
+			e.escapedSeen = map[string]bool{}
+		}
+		if !e.escapedSeen[r] {
+			e.escapedSeen[r] = true
+			e.escapedRefs = append(e.escapedRefs, r)
+		}
+	}
+}
+
+var freshRefRe = regexp.MustCompile(`\(- [0-9]+\)`)
 
 // addrOf turns a pointer-typed SSA operand into a location.
 func (f *frame) addrOf(v ssa.Value) *Loc {
@@ -224,6 +273,9 @@ func (f *frame) store(x *ssa.Store) {
 		if l.kind != locCell || !strings.HasPrefix(l.base, "(- ") {
 			f.enc.escaped = true
 		}
+	}
+	if !f.isLocalBase(l) {
+		f.enc.escapeTerm(val)
 	}
 	if _, fresh := addrRoot(x.Addr).(*ssa.Alloc); !fresh && !f.isLocalBase(l) {
 		f.wrote("store " + f.enc.srcText(f.fn, x.Pos(), "star"))
@@ -893,29 +945,54 @@ func (f *frame) selectInstr(x *ssa.Select) {
 	}
 	f.vals[x] = SV{t: x.Type(), tuple: parts}
 	e.note("select statement: nondeterministic choice of a ready case (channels not modelled)")
+	// ghost event for "calls select(ch)" clauses: this path polls the channel
+	for _, st := range x.States {
+		f.noteCall("select", []SV{f.get(st.Chan)})
+	}
 }
 
+func ghostDeferKey(k int) string { return fmt.Sprintf("ghost!defer!%d", k) }
+
 func (f *frame) deferCall(x *ssa.Defer) {
+	k := len(f.defers)
 	f.defers = append(f.defers, deferRec{instr: x, pc: f.curPC})
 	for _, a := range x.Call.Args {
 		f.escape(a)
 	}
+	// ghost flag: this defer statement has been executed on the current path
+	f.enc.R.heapDecl[ghostDeferKey(k)] = "Bool"
+	f.curHeap[ghostDeferKey(k)] = "true"
 }
 
 func (f *frame) runDefers(x *ssa.RunDefers) {
-	// normal exit: run deferred calls in LIFO order; a defer statement counts only on
-	// paths that executed it (its block dominates this exit, or cannot reach it at all)
+	f.runDefersHere()
+}
+
+// runDefersHere runs the registered deferred calls (LIFO) on the current state; each one
+// takes effect only if its ghost flag is set on this path.
+func (f *frame) runDefersHere() {
 	for i := len(f.defers) - 1; i >= 0; i-- {
 		d := f.defers[i]
-		db, rb := d.instr.Block(), x.Block()
-		if db.Dominates(rb) {
-			f.applyCall(&d.instr.Call, nil, d.instr.Pos(), true)
+		flag, ok := f.curHeap[ghostDeferKey(i)]
+		if !ok || flag == "false" {
 			continue
 		}
-		if !blockReaches(db, rb) {
-			continue
+		before := f.curHeap.clone()
+		pcBefore := f.curPC
+		if flag != "true" {
+			f.curPC = f.enc.define(f.enc.fresh(f.prefix+"pc"), "Bool", and(f.curPC, flag))
 		}
-		bail("defer in %s is executed on some but not all paths to a return", f.fn.Name())
+		f.inDeferred = true
+		f.applyCall(&d.instr.Call, nil, d.instr.Pos(), true)
+		f.inDeferred = false
+		f.curHeap[ghostDeferKey(i)] = "false"
+		if flag != "true" {
+			before[ghostDeferKey(i)] = "false"
+			f.curHeap = f.mergeHeaps([]string{flag, not(flag)}, []Heap{f.curHeap, before})
+			// either the defer statement was not executed on this path (state unchanged) or
+			// the deferred call ran with the effects and postconditions just assumed
+			f.curPC = f.enc.define(f.enc.fresh(f.prefix+"pc"), "Bool", or(and(pcBefore, not(flag)), f.curPC))
+		}
 	}
 }
 
@@ -928,6 +1005,7 @@ func (f *frame) panicInstr(x *ssa.Panic) {
 		text = "panic(" + x.X.Name() + ")"
 	}
 	f.throws = append(f.throws, throwRec{pc: f.curPC, kind: kind, text: text, pos: x.Pos(), heap: f.curHeap.clone()})
+	f.recordExc(text, x.Pos(), f.curPC, f.curHeap.clone())
 	if kind == "foreign" {
 		f.oblige("foreign", text, "false", text, x.Pos())
 	}
